@@ -4,6 +4,9 @@
  * ops:  call <op> <code>   script the next pthread return code, call p_rwlock_<op> (lock)
  *       null <op>          p_rwlock_<op> (NULL)
  *       new <code>         p_rwlock_new with pthread_rwlock_init returning <code>
+ *       ident              two lock objects: every p_rwlock_* call on a lock must hand pthread the handle INSIDE that
+ *                          object (and p_rwlock_new / p_rwlock_free the handle of the new / freed object):
+ *                          `ident ok` or `ident !WRONG-HANDLE(<call>)`
  *       reset
  */
 #define _GNU_SOURCE
@@ -15,7 +18,8 @@
 #include "pmem.h"
 #include "prwlock.h"
 
-P_LIB_API ppointer p_malloc0 (psize n) { return calloc (1, n); }
+static size_t last_alloc_size;
+P_LIB_API ppointer p_malloc0 (psize n) { last_alloc_size = n; return calloc (1, n); }
 P_LIB_API ppointer p_malloc (psize n) { return malloc (n); }
 P_LIB_API void p_free (ppointer p) { free (p); }
 
@@ -23,9 +27,10 @@ static int next_code = 0;
 static const char *called = "none";
 static int ncalls = 0;
 
-#define WRAP(name) int __wrap_pthread_rwlock_##name (pthread_rwlock_t *l) { (void) l; called = #name; ncalls++; return next_code; }
+static const void *last_hdl;
+#define WRAP(name) int __wrap_pthread_rwlock_##name (pthread_rwlock_t *l) { last_hdl = l; called = #name; ncalls++; return next_code; }
 WRAP (rdlock) WRAP (tryrdlock) WRAP (wrlock) WRAP (trywrlock) WRAP (unlock) WRAP (destroy)
-int __wrap_pthread_rwlock_init (pthread_rwlock_t *l, const pthread_rwlockattr_t *a) { (void) l; (void) a; called = "init"; ncalls++; return next_code; }
+int __wrap_pthread_rwlock_init (pthread_rwlock_t *l, const pthread_rwlockattr_t *a) { last_hdl = l; (void) a; called = "init"; ncalls++; return next_code; }
 
 static const char *op_names[6] = { "rlock", "wlock", "rtry", "wtry", "runlock", "wunlock" };
 static pboolean do_op (int k, PRWLock *l) {
@@ -39,6 +44,35 @@ static pboolean do_op (int k, PRWLock *l) {
 	}
 }
 
+static int inside (const void *p, const void *b, size_t n) { return p != NULL && (const char *) p >= (const char *) b && (const char *) p < (const char *) b + n; }
+
+static const char *do_ident (PRWLock *l1, size_t sz) {
+	static char res[64];
+	PRWLock *l2, *l[2];
+	int i, k;
+	next_code = 0; last_hdl = NULL;
+	l2 = p_rwlock_new ();
+	if (!l2) return "!NEW-FAILED";
+	if (!inside (last_hdl, l2, last_alloc_size)) { free (l2); return "!WRONG-HANDLE(init)"; }
+	if (l2 == l1) return "!SAME-OBJECT";
+	l[0] = l1; l[1] = l2;
+	for (i = 0; i < 4; i++) for (k = 0; k < 6; k++) {
+		last_hdl = NULL; ncalls = 0;
+		do_op (k, l[i & 1]);
+		if (ncalls != 1 || !inside (last_hdl, l[i & 1], sz) || inside (last_hdl, l[!(i & 1)], sz)) {
+			snprintf (res, sizeof res, "!WRONG-HANDLE(%s)", op_names[k]);
+			return res;
+		}
+	}
+	{
+		const char *base = (const char *) l2;
+		last_hdl = NULL;
+		p_rwlock_free (l2);
+		if (last_hdl == NULL || (const char *) last_hdl < base || (const char *) last_hdl >= base + sz) return "!WRONG-HANDLE(destroy)";
+	}
+	return "ok";
+}
+
 int main (void) {
 	char line[256], a[64], b[64];
 	FILE *out = fdopen (dup (1), "w");
@@ -46,6 +80,7 @@ int main (void) {
 	dup2 (2, 1);
 	next_code = 0;
 	lock = p_rwlock_new ();
+	size_t lock_size = last_alloc_size;
 	while (fgets (line, sizeof line, stdin)) {
 		int n, k, f = -1;
 		char c[64];
@@ -70,6 +105,7 @@ int main (void) {
 			fprintf (out, "new ret=%d\n", l2 != NULL);
 			next_code = 0;
 			if (l2) p_rwlock_free (l2);
+		} else if (!strcmp (a, "ident") && n == 1) { fprintf (out, "ident %s\n", do_ident (lock, lock_size)); next_code = 0;
 		} else if (!strcmp (a, "reset") && n == 1) fprintf (out, "ok\n");
 		else fprintf (out, "bad-op\n");
 		fflush (out);
